@@ -428,6 +428,12 @@ func (fr *Frame) applyContract(site ssa.Instruction, ct *Contract, sig *types.Si
 		}
 		if isFresh(n) && kindOf(t) == "ref" {
 			v = vc.alloc()
+		} else if isFresh(n) && kindOf(t) == "iface" {
+			tag := Var(freshName("ret."+n+".t"), SInt)
+			vc.addFact(st, Lt(IntLit(0), tag))
+			v = IfaceV{tag, vc.alloc()}
+		} else if isFresh(n) && kindOf(t) == "slice" {
+			v = SliceV{vc.alloc(), Var(freshName("ret."+n+".l"), SInt)}
 		} else {
 			v = freshValue(t, "ret."+n, vc.allocN+1)
 		}
@@ -450,9 +456,68 @@ func (fr *Frame) applyContract(site ssa.Instruction, ct *Contract, sig *types.Si
 		if cl.Kind != "ensures" {
 			continue
 		}
-		vc.addFact(st, ev.evalBool(cl.Expr))
+		if rest := fr.assignGhosts(ct, ev, st, cl.Expr, TTrue); rest != nil {
+			vc.addFact(st, ev.evalBool(rest))
+		}
 	}
 	return res
+}
+
+// assignGhosts turns ensures conjuncts of the form  g == rhs  /  cond ==> g == rhs  (g an assigned ghost variable)
+// into direct updates of the ghost state instead of equations over a havoced value; returns what is left to assume.
+func (fr *Frame) assignGhosts(ct *Contract, ev *SpecEval, st *State, e *SExpr, cond *Term) *SExpr {
+	isAssignedGhost := func(x *SExpr) bool {
+		if x.Kind != "ident" {
+			return false
+		}
+		if _, ok := fr.vc.prog.specs.Ghost[x.Name]; !ok {
+			return false
+		}
+		for _, a := range ct.Assigns {
+			if a == x.Name {
+				return true
+			}
+		}
+		return false
+	}
+	switch {
+	case e.Kind == "binary" && e.Name == "&&":
+		l := fr.assignGhosts(ct, ev, st, e.Args[0], cond)
+		r := fr.assignGhosts(ct, ev, st, e.Args[1], cond)
+		if l == nil {
+			return r
+		}
+		if r == nil {
+			return l
+		}
+		return &SExpr{Kind: "binary", Name: "&&", Args: []*SExpr{l, r}}
+	case e.Kind == "binary" && e.Name == "==" && isAssignedGhost(e.Args[0]):
+		rhs := ev.term(e.Args[1])
+		cur := st.Ghost[e.Args[0].Name]
+		if cur == nil {
+			cur = st.ghostVar(fr.vc, fr.vc.prog.specs.Ghost[e.Args[0].Name])
+		}
+		st.Ghost[e.Args[0].Name] = Ite(cond, rhs, cur)
+		return nil
+	case e.Kind == "binary" && e.Name == "==>" && cond == TTrue:
+		// only one level of guarding
+		if containsGhostAssign(e.Args[1], isAssignedGhost) {
+			c := ev.evalBool(e.Args[0])
+			rest := fr.assignGhosts(ct, ev, st, e.Args[1], c)
+			if rest == nil {
+				return nil
+			}
+			return &SExpr{Kind: "binary", Name: "==>", Args: []*SExpr{e.Args[0], rest}}
+		}
+	}
+	return e
+}
+
+func containsGhostAssign(e *SExpr, is func(*SExpr) bool) bool {
+	if e.Kind == "binary" && e.Name == "&&" {
+		return containsGhostAssign(e.Args[0], is) || containsGhostAssign(e.Args[1], is)
+	}
+	return e.Kind == "binary" && e.Name == "==" && is(e.Args[0])
 }
 
 func (fr *Frame) havocAssigns(ct *Contract, st *State) {
